@@ -71,6 +71,7 @@ type fillCtx struct {
 
 var strPoolPath = []string{"a", "abc", "mine", "7", "x y", "é", "a.b", "A-Z_~", "100%", "q?x=1", "a+b", "#frag", "日本"}
 var strPoolAny = []string{"", "abc", "a b", "x/y", "é日本", "a&b=c", "50%", "q?x#y", "a+b", " lead", "trail ", "\"quoted\"", "back\\slash", "tab\tsep"}
+var strPoolRespHeader = []string{"abc", "a b", "x/y", "é", "a,b", "v=1;q=2", "50%", "\"q\"", ""}
 var strPoolHeader = []string{"abc", "a b", "x/y", "é", "a,b", "v=1;q=2", "50%", "\"q\""}
 
 // fill sets v (addressable) to a seeded value respecting the domain restrictions of C09
@@ -116,6 +117,9 @@ func fill(v reflect.Value, c *fillCtx, depth int) {
 			pool = strPoolPath
 		case "header":
 			pool = strPoolHeader
+		case "respheader":
+			// a response header may be present and empty ("no cursor" vs. "start over")
+			pool = strPoolRespHeader
 		}
 		v.SetString(pool[c.r.intn(len(pool))])
 	case reflect.Bool:
@@ -336,14 +340,17 @@ func respInfo(p *Pkg, c *Case) string {
 		fn := reflect.ValueOf(p.Funcs[n])
 		fnT := fn.Type()
 		expectedVals := -1
+		// the caller-supplied code of a default response: any status net/http can write that the
+		// operation does not document under a number
+		passedCode := []int{299, 600, 799, 999, 418}[(int(a.Seed)+idx)%5]
 		apiPtr.Elem().FieldByName(field).Set(reflect.MakeFunc(ft, func(args []reflect.Value) []reflect.Value {
 			in := make([]reflect.Value, fnT.NumIn())
 			for i := range in {
 				in[i] = reflect.New(fnT.In(i)).Elem()
 				if fnT.In(i).Kind() == reflect.Int && i == 0 {
-					in[i].SetInt(299)
+					in[i].SetInt(int64(passedCode))
 				} else {
-					fill(in[i], &fillCtx{r: r, mode: "header", forceSet: true}, 0)
+					fill(in[i], &fillCtx{r: r, mode: "respheader", forceSet: true}, 0)
 				}
 			}
 			res := fn.Call(in)[0]
@@ -386,7 +393,7 @@ func respInfo(p *Pkg, c *Case) string {
 		for _, k := range hk {
 			written += len(w.h[k])
 		}
-		outs = append(outs, fmt.Sprintf("%s:status=%d,code_arg=%v,ct=%s,headers=%s,body=%s,w=%d,hv=%d/%d", n, w.status, codeArg, w.h.Get("Content-Type"), strings.Join(hk, "+"), bk, w.nWH, written, expectedVals))
+		outs = append(outs, fmt.Sprintf("%s:status=%d,code_arg=%v,ct=%s,headers=%s,body=%s,w=%d,hv=%d/%d,code=%d", n, w.status, codeArg, w.h.Get("Content-Type"), strings.Join(hk, "+"), bk, w.nWH, written, expectedVals, passedCode))
 	}
 	return strings.Join(outs, " ; ")
 }
@@ -458,7 +465,7 @@ func clientCall(p *Pkg, c *Case) string {
 				// (or, harmlessly, an integer header value)
 				in[i].SetInt(int64(a.Status))
 			} else {
-				fill(in[i], &fillCtx{r: r, mode: "header"}, 0)
+				fill(in[i], &fillCtx{r: r, mode: "respheader"}, 0)
 				if in[i].Kind() == reflect.Interface || in[i].Kind() == reflect.Struct {
 					snapshotBodies(in[i])
 				}
